@@ -703,7 +703,7 @@ End WithInput.
 
 (* Tokenizer.Tokenize with the two limits as parameters *)
 Definition tokenize_with (max_in max_tok : N) (bs : bytes) : outcome (list token * list comment) :=
-  if max_in <? N.of_nat (length bs) then Err E_InputTooLarge 1 0
+  if max_in <? N.of_nat (length bs) then Err E_InputTooLarge 1 1
   else lex_loop bs max_tok (S (length bs)) (bs, 0) 0 [] [].
 
 Definition tokenize (bs : bytes) : outcome (list token * list comment) := tokenize_with max_input max_tokens bs.
